@@ -262,13 +262,8 @@ _cache = {}
 
 def tables_for(src, dialect):
     from .grammar import load_dialect
-    key = (id(src), dialect)
-    if key in _cache and _cache[key][0] is src:
-        return _cache[key][1]
-    g = load_dialect(src, dialect)
-    t = build(g)
-    _cache[key] = (src, t)
-    return t
+    from .source import memo_on
+    return memo_on(src, ('lalr', dialect), lambda: build(load_dialect(src, dialect)))
 
 
 def kind(t, st, a):
